@@ -1,12 +1,12 @@
 """C10 — AXI bursts are expanded and resized according to the AXI address rules."""
 import time
 import c10lib
-from c10lib import (Job, run_jobs, B2BInst, ConvArith, ConvE2E, LanePathInst, FIXED, INCR, WRAP, RESERVED,
+from c10lib import (Job, run_jobs, B2BInst, ConvArith, ConvE2E, LanePathInst, SideInst, FIXED, INCR, WRAP, RESERVED,
                     spec_addr, legal, burst_bytes, eff_burst)
 from explore import Disagreement, generic_search, search_failing_input
 
 ALL = (FIXED, INCR, WRAP)
-FMT = B2BInst.FMT + " || data paths: " + LanePathInst.FMT
+FMT = B2BInst.FMT + " || data paths: " + LanePathInst.FMT + " || +sideband instances: resp, id, user, dest inserted after ready"
 
 
 def b2b_box_jobs(quick):
@@ -82,10 +82,31 @@ def lane_jobs(quick):
     return J
 
 
+def side_jobs(quick):
+    """Data channels together with their side-band ports resp/id/user/dest (model: LitexModel/Axi/WidthConvSide.lean):
+    exhaustive on 8<->16, random lock-step on realistic widths; the registered R side-band of AXIDownConverter in every
+    tier on two ratios."""
+    J = []
+    for conv, ch, a, b in (("down", "r", 16, 8), ("up", "w", 8, 16), ("down", "w", 16, 8), ("up", "r", 8, 16)):
+        J.append(Job("A", lambda conv=conv, ch=ch, a=a, b=b: SideInst(
+            "AXI%sConverter(%d->%d)/%s+sideband" % (conv.capitalize(), a, b, ch), conv, ch, a, b),
+            max_states=20000 if quick else 400000))
+    cyc = 1200 if quick else 20000
+    grid = (("down", "r", 64, 32, "direct"), ("down", "r", 128, 32, "AXIConverter"), ("up", "w", 32, 64, "AXIConverter"),
+            ("down", "w", 64, 32, "direct"), ("up", "r", 32, 128, "direct"))
+    if not quick:
+        grid += (("down", "r", 256, 32, "direct"), ("up", "w", 32, 256, "direct"), ("down", "w", 128, 32, "AXIConverter"),
+                 ("up", "r", 64, 128, "AXIConverter"))
+    for conv, ch, a, b, via in grid:
+        J.append(Job("B", lambda conv=conv, ch=ch, a=a, b=b, via=via: SideInst(
+            c10lib.conv_name(conv, a, b, None, via) + "/" + ch + "+sideband", conv, ch, a, b, via=via), cycles=cyc, runs=1))
+    return J
+
+
 def jobs(tier):
     quick = tier == "quick"
     # longest jobs first (the pool hands them out in order)
-    return b2b_box_jobs(quick) + conv_jobs(quick) + b2b_random_jobs(quick) + lane_jobs(quick)
+    return b2b_box_jobs(quick) + conv_jobs(quick) + b2b_random_jobs(quick) + lane_jobs(quick) + side_jobs(quick)
 
 
 # (kind, dw_from, dw_to, options).  Ratios 2/4/8 in both directions, widths up to 1024 bits, instances built through
@@ -247,6 +268,13 @@ def correspond(ctx):
         "w_beats_down assumes the stream producer contract (Held) on the wide side",
         "converter byte-preservation is proved only inside the regions of upconv_arith_partial / downconv_arith_partial; "
         "outside them the four C10 known findings apply",
+        "end-to-end byte theorems (upconv/downconv_write_e2e_partial, upconv_read_e2e_partial): full-width INCR bursts; "
+        "down-converter: any start address, master strobes low below the start address (A3.4.3); the byte-level model "
+        "(burstWrites, upWords/downWords) is compared with the Python byte oracle and with the real W/R beats on every "
+        "end-to-end burst (also WRAP and single-transfer domains, which have address-level theorems only)",
+        "downR_sideband_unstalled_partial assumes the wide R beat is taken in the first cycle it is offered (NoStall); "
+        "with a stall the side-band register of AXIDownConverter follows the narrow side's lines (modelled, compared, "
+        "Lean negative witness; reported as an observation outside the C10 statement)",
     ]
     ctx.extra_trusted = [
         "harness/c10lib.py: Python transcription of AMBA AXI A3.4.1 used by the monitors, cross-checked against the "
